@@ -214,6 +214,7 @@ def r3(cx, rec):
                          'when the input ends inside a list/dictionary (with_end set) the scanner returns Ok instead of an error: '
                          'unterminated containers such as "li1e" or "d1:ai1e" are accepted')
     # (a2) the terminator flag is a constant at every call site: false only at the top level, true for nested containers
+    tops_seen = {}
     for f in F.user_fns():
         params = [v['n'] for v in f.raw['vars'] if 'arg' in v]
         flag = terminator_flag(f)
@@ -226,9 +227,20 @@ def r3(cx, rec):
             top = (g.path == V.codec_fn(F, 'from_array').path or (g.trait or '') != '' or
                    not any(n2 for n2, l2, t2 in C.params_of(g, r'Enumerate<')))
             rec.site(g, gb, '%s(.., with_end=%s) from %s' % (f.name, show(a), g.name))
+            tops_seen.setdefault(f.path, set()).add(g.path) if top else None
             rec.need(c is not None and a[0] == 'const' and bool(c[0]) == (not top), 'terminator-flag/%s<-%s' % (f.name, g.name), g, gb,
                      '%s calls %s with with_end=%s: %s' % (g.name, f.name, show(a),
                                                           'a stray "e" at the top level is accepted as the end of input' if top else 'a nested container is not required to end with "e"'))
+    # the decoder's entry point runs the value scanner itself, at top level (flag false): it must not go through a nested
+    # container parser, which expects -- and accepts -- a closing "e"
+    top = V.codec_fn(F, 'from_array')
+    vv = V.codec_fn(F, 'values_vector')
+    direct = C.calls_to_fn(F, top, vv.path)
+    others = [t for b, t in C.local_calls(F, top) if t != vv.path and F.fns[t].path.startswith('bcodec::bdecoder::')]
+    rec.site(top, direct[0] if direct else None, 'entry point scans with the top-level flag: %s; other decoder calls: %s' % (bool(direct), others))
+    rec.need(bool(direct) and not others, 'terminator-flag/entry', top, None,
+             'the decoder entry point does not run the value scanner directly at top level (it calls %s): a stray "e" then ends '
+             'decoding successfully and the rest of the input is ignored' % (others or 'nothing'))
     scan_rules(cx, rec)
     drained_then_read(cx, rec)
 
